@@ -6,7 +6,7 @@ from __future__ import annotations
 import ast
 from typing import Any
 
-from .bitabs import (AExt, AScaled, ASumVec, PartialRaise, _Raises, fresh, AFin, fin_lift, fin_atoms, mkfin, MAX_FIN_ATOMS, ABits, ACond, AEnum, AFn, AInt, AObj, AOpq, ATable, AView, Abort, F, OB, ONE, ZERO, PathRaise,
+from .bitabs import (NeedCases, AExt, AScaled, ASumVec, PartialRaise, _Raises, fresh, AFin, fin_lift, fin_atoms, mkfin, MAX_FIN_ATOMS, ABits, ACond, AEnum, AFn, AInt, AObj, AOpq, ATable, AView, Abort, F, OB, ONE, ZERO, PathRaise,
                      cbit, _freeze)
 from .model import (BitArr, ClassInfo, ClassRef, EnumMember, FuncInfo, FuncRef, ModRef, NPArr, Rec, Unfoldable, SAFE)
 
@@ -773,7 +773,8 @@ def getattr_(fr, base, attr, node):
         if isinstance(base, (ABits, AView)) and attr == "size":
             return len(base)
         if isinstance(base, ATable) and attr == "T":
-            raise Abort("table transpose")
+            from .bitabs import ATableT
+            return base.base if isinstance(base, ATableT) else ATableT(base)
         return AFn(base, attr)
     if isinstance(base, Rec):
         if attr in base.fields:
@@ -1544,6 +1545,15 @@ def method(fr, base, name, args, kw, n):
             if any(is_abs(a) for a in args):
                 return I.opaque(f"str/bytes method {name} on abstract", notnone=True)
         if isinstance(base, list) and name in ("append", "extend", "insert", "pop", "remove", "index", "copy", "clear", "reverse", "sort", "count"):
+            if name == "index" and args and (isinstance(args[0], AFin) or any(isinstance(e, AFin) for e in base)):
+                # finite-function operands: decided exactly case by case over ALL atoms involved (needle and haystack)
+                acc = set()
+                for x in [args[0]] + list(base):
+                    if isinstance(x, AFin):
+                        acc.update(x.atoms)
+                if len(acc) > MAX_FIN_ATOMS:
+                    raise Abort("list.index over too many finite-function atoms")
+                raise NeedCases(sorted(acc))
             if name == "index" and args and is_abs(args[0]):
                 for k, e in enumerate(base):
                     cand = ABits(fr.to_bitlist(e), "list") if isinstance(e, (list, tuple)) and isinstance(args[0], ABits) else e
@@ -1804,6 +1814,9 @@ def external(fr, name, args, kw, n):
         if kw.get("signed"):
             r.signed = True
         return r
+    if name == "bitarray.util.zeros":
+        nbits = fr.cint(args[0] if args else kw.get("length"))
+        return ABits([cbit(0)] * nbits, "ba", kw.get("endian", args[1] if len(args) > 1 else "big"))
     if name in ("numpy.ndarray", "numpy.zeros", "numpy.empty", "numpy.ones"):
         shape = kw.get("shape", args[0] if args else None)
         fill = None if short in ("ndarray", "empty") else cbit(1 if short == "ones" else 0)
